@@ -62,6 +62,8 @@ OPTION_LISTS = {                                 # name -> (exclusive, additive)
     "meta": (["a.b"], ["c*", "d?", "(e)"]),
     "space": (["Not set"], ["Valve 1", "Valve 2"]),
     "nonascii": (["Åben"], ["µ1", "°2"]),
+    "empty_excl": ([], ["VA01", "VA02"]),        # an empty list instead of None
+    "empty_add": (["Open", "Closed"], []),
 }
 OPTION_LISTS_THOROUGH = {
     "add4": (None, ["VA01", "VA02", "VA03", "VA04"]),
